@@ -102,9 +102,10 @@ func verifBang(v data.Value, _ []data.Value) data.Value { return data.String(v.S
 
 const c08Failing = "{namespace f}\n/** @param? u */\n{template .block}\nA{let $z}before{$u.nope}{/let}{$z}\n{/template}\n" +
 	"/** @param? u */\n{template .param}\nB{call .w}{param z}x{$u.nope}{/param}{/call}\n{/template}\n/** @param z */\n{template .w}\n{$z}\n{/template}\n" +
-	"/** @param? u */\n{template .log}\nC{log}l{$u.nope}{/log}\n{/template}\n/** @param? u */\n{template .plain}\nD{$u.nope}\n{/template}\n"
+	"/** @param? u */\n{template .log}\nC{log}l{$u.nope}{/log}\n{/template}\n/** @param? u */\n{template .plain}\nD{$u.nope}\n{/template}\n" +
+	"/** @param? u */\n{template .blockok}\n{let $w}W{$u ?: ''}{/let}[{$w}]{let $w2}V{/let}{$w2}\n{/template}\n"
 
-var c08Prior = []string{"", "f.block", "f.param", "f.log", "f.plain", "", "a.other", ""}
+var c08Prior = []string{"", "f.block", "f.param", "f.log", "f.plain", "", "a.other", "", "f.blockok"}
 
 // H_pure: renders of template set t with the same (symbolic) data under frozen memory: every
 // cell reachable from the compiled registry, the data map, the injected data and all
@@ -144,6 +145,10 @@ func H_pure(t, d int, oblig bool, prior int) {
 	case prior >= 1 && prior <= 4:
 		_, perr := verifRenderIJ(tofu, c08Prior[prior], m, ij)
 		verifAssert(perr != nil, "harness: the prior render was meant to fail")
+	case prior == 8:
+		// a template whose only top-level bindings are block-form lets, rendered with the same data map
+		po, perr := verifRenderIJ(tofu, c08Prior[prior], m, ij)
+		verifAssert(perr == nil && po == "[W]V", "harness: the prior render of f.blockok")
 	case prior == 5:
 		w := &faultWriter{}
 		tofu.NewRenderer("a.t").Inject(ij).Execute(w, m)
